@@ -576,6 +576,10 @@ class Runner:
                 for name, w, t, what, exp, obs in judge(c, real, tab):
                     kindf = "spec" if name == "S" else "model"
                     key = f"C08:{'multi-cell-pair-sum' if name == 'S' else 'model-multi-cell'}:{kind}"
+                    if mc.get("probe"):
+                        if name != "S":
+                            continue
+                        key = mc["probe"]
                     if len([f for f in ex.findings if f.key == key]) >= 3:
                         continue
                     which = "the connection shared by both cells" if mc["multi"] == "shared-conn" else f"cell {i}"
@@ -701,9 +705,29 @@ def make_multicell(rng, variant, topo, near_pair, dm):
         c1["post"] = c0["post"]
     else:
         c1["pre"], c1["delays"], c1["D"] = c0["pre"], c0["delays"], c0["D"]
+    if variant.startswith("mstdpet") and near_pair[0] != near_pair[1]:
+        # MSTDPET.register_cell does not tag its trace monitors with the trace mode (finding C08:mstdpet:trace-mode-tag-missing,
+        # exhibited by `probe_mstdpet_trace_tag`): keep that coincidence (equal amplitude AND time constant, different trace
+        # mode) out of the random stream so that it keeps testing the pool with distinguishable monitors
+        for k in ("tcPre", "tcPost"):
+            c1["params"][k] = rng.choice([x for x in (2.0, 4.0, 5.0, 10.0, 20.0) if x != c0["params"][k]])
     defaults = make_params(rng, variant, SIGNS[rng.randrange(4)], rng.random() < 0.5)
     defaults["dt"] = c0["params"]["dt"]
     return {"multi": topo, "variant": variant, "cells": [c0, c1], "defaults": defaults}
+
+
+def probe_mstdpet_trace_tag():
+    """two cells of ONE MSTDPET trainer sharing a connection, equal rates and time constants, trace_mode 'nearest' vs
+    'cumulative': each cell must still use its own trace mode"""
+    T = 5
+    base = {"variant": "mstdpet-s", "conn": "dense", "geom": {"nin": 1, "nout": 1}, "B": 1, "T": T, "delaymode": "none", "D": 0,
+            "delays": [0], "red": "sum", "update": "end", "pre": [["1"], ["1"], ["0"], ["1"], ["0"]],
+            "signal": {"mode": "scalar", "scale": 1.0, "v": [1.0] * T}}
+    par = {"dt": 1.0, "lrPost": 0.5, "lrPre": -0.25, "tcPost": 10.0, "tcPre": 20.0, "tcz": 5.0}
+    c0 = dict(base, params=dict(par, nearest=True), post=[["0"], ["0"], ["1"], ["0"], ["1"]])
+    c1 = dict(base, params=dict(par, nearest=False), post=[["0"], ["1"], ["1"], ["0"], ["1"]])
+    return {"multi": "shared-conn", "variant": "mstdpet-s", "cells": [c0, c1], "defaults": dict(par, nearest=False),
+            "probe": "C08:mstdpet:trace-mode-tag-missing"}
 
 
 def explore(ctx) -> Exploration:
@@ -808,6 +832,7 @@ def explore(ctx) -> Exploration:
         topo = "shared-post" if (r + r // 6) % 2 == 0 else "shared-conn"
         near_pair = [(False, True), (True, False), (False, False), (True, True)][(r // 2) % 4]
         R.add_multi(make_multicell(rng, v, topo, near_pair, rng.choice(DELAYMODES)), "multi-cell")
+    R.add_multi(probe_mstdpet_trace_tag(), "multi-cell-probe")
     R.flush()
 
     ex.rule = ("(1) every pre/post spike history of a 1x1 dense cell of length T (quick 5, thorough 7; comparisons after every step cover all "
